@@ -135,6 +135,8 @@ impl S23 {
 
 /// Key of the tag the sync_tag test blocks add on samples divisible by 7.
 pub const DKEY: &str = "d7";
+/// key under which T21 forwards the tags of its second input
+pub const BKEY: &str = "hb";
 
 #[derive(rustradio::rustradio_macros::Block)]
 #[rustradio(new, sync_tag)]
@@ -171,12 +173,18 @@ pub struct T21 {
     k: u32,
 }
 impl T21 {
-    fn process_sync_tags<'a>(&mut self, a: u32, tags: &'a [Tag], b: u32, _btags: &'a [Tag]) -> (u32, Cow<'a, [Tag]>) {
+    fn process_sync_tags<'a>(&mut self, a: u32, tags: &'a [Tag], b: u32, btags: &'a [Tag]) -> (u32, Cow<'a, [Tag]>) {
         crate::drip::probe_bump();
         let o = f0(a, b, self.k);
-        if a % 7 == 0 {
+        if a % 7 == 0 || !btags.is_empty() {
+            // first input's tags, then the block's own, then the second input's under key BKEY
             let mut t = tags.to_vec();
-            t.push(Tag::new(0, DKEY, TagValue::U64(a as u64)));
+            if a % 7 == 0 {
+                t.push(Tag::new(0, DKEY, TagValue::U64(a as u64)));
+            }
+            for bt in btags {
+                t.push(Tag::new(0, BKEY, bt.val().clone()));
+            }
             (o, Cow::Owned(t))
         } else {
             (o, Cow::Borrowed(tags))
@@ -340,11 +348,13 @@ impl Block for DelayRetune {
             }
         }
         let before = (self.s1w.free(), self.s2r.verif_available());
-        self.inner.work()?;
+        // (the inner block's own verdict is passed on when it says "call me again": a Delay
+        // that keeps saying so without moving anything shows up as an idle spin)
+        let inner_again = matches!(self.inner.work()?, BlockRet::Again);
         if (self.s1w.free(), self.s2r.verif_available()) != before {
             progress = true;
         }
-        Ok(if progress {
+        Ok(if progress || inner_again {
             BlockRet::Again
         } else if src_empty {
             BlockRet::WaitForStream(&self.src, 1)
